@@ -20,8 +20,8 @@ from vlib import Report, coq_prove, cargo_build, run_bin, coq_eval, gen_if_chang
 from props import c17_corpus as C
 
 CORPUS_SEED = 1701
-N_QUICK = 320
-N_BIG = 900
+N_QUICK = 600
+N_BIG = 2400
 
 LEVELS = {1: "ERROR", 2: "WARN", 3: "INFO", 4: "DEBUG", 5: "TRACE"}
 
@@ -32,10 +32,41 @@ LEVELS = {1: "ERROR", 2: "WARN", 3: "INFO", 4: "DEBUG", 5: "TRACE"}
 _corpus_cache = {}
 
 
+def regress_files():
+    d = os.path.join(vlib.VERIF, "corpus", "C17")
+    out = []
+    if os.path.isdir(d):
+        for f in sorted(os.listdir(d)):
+            if f.endswith(".json"):
+                out.append((f, json.load(open(os.path.join(d, f)))))
+    return out
+
+
+def regress_specs():
+    """[(file, entry)] of the hand-written regression skeletons, in a fixed order; entry k is function N_QUICK + k of corpus a."""
+    return [(f, e) for f, doc in regress_files() for e in doc["functions"]]
+
+
+# The argument-order probe: `target` written before `parent` / `follows_from`.  attr.rs rejects that order (its duplicate-argument
+# guards for `parent` and `follows_from` test `args.target`): known finding F172.  Compiled as its own binary so that the rejection
+# does not take the corpus down; once the guards are repaired the twins compile and go through the same correspondence + oracle.
+ORDER_SPECS = [
+    {"name": "target_then_parent", "kind": "sync", "groups": ["u32", "val"], "ret": "num", "body": ["seq", ["eff", 1], ["use", 1]], "tail": ["prim", 0],
+     "attrs": {"target": 0, "parent": ["none"], "order": "target_first", "ret": {"mode": "default"}}, "calls": [{"args": [4, 0], "cur": True}]},
+    {"name": "target_then_follows", "kind": "sync", "groups": ["u32"], "ret": "unit", "body": ["eff", 2], "tail": ["unit"],
+     "attrs": {"target": 1, "follows": [0, 2], "order": "target_first"}, "calls": [{"args": [1]}]},
+    {"name": "target_then_parent_follows_async", "kind": "async", "groups": ["val"], "ret": "rec", "body": ["seq", ["use", 0], ["await", 3]], "tail": ["movep", 0],
+     "attrs": {"target": 2, "parent": ["helper", 1], "follows": [0], "order": "target_first"}, "calls": [{"args": [0]}, {"args": [0], "col": [5, 0, 1, 0, 0]}]},
+]
+ORDER_MSG = ("expected only a single `parent` argument", "expected only a single `follows_from` argument")
+
+
 def corpus(which):
     if which not in _corpus_cache:
         if which == "a":
-            _corpus_cache[which] = C.build_corpus(N_QUICK, CORPUS_SEED)
+            _corpus_cache[which] = C.build_corpus(N_QUICK, CORPUS_SEED, [e for _, e in regress_specs()])
+        elif which == "o":
+            _corpus_cache[which] = C.build_corpus(0, CORPUS_SEED + 2, ORDER_SPECS)
         else:
             _corpus_cache[which] = C.build_corpus(N_BIG, CORPUS_SEED + 1)
     return _corpus_cache[which]
@@ -45,6 +76,7 @@ def write_corpora():
     src = os.path.join(vlib.VERIF, "harness", "attr", "src")
     gen_if_changed(os.path.join(src, "corpus_a.rs"), C.render_corpus(corpus("a"), CORPUS_SEED))
     gen_if_changed(os.path.join(src, "corpus_b.rs"), C.render_corpus(corpus("b"), CORPUS_SEED + 1))
+    gen_if_changed(os.path.join(src, "corpus_o.rs"), C.render_corpus(corpus("o"), CORPUS_SEED + 2))
 
 
 # ------------------------------------------------------------------------------------------------
@@ -91,6 +123,12 @@ def split_calls(log, ncalls):
                 problems.append("nested %s" % raw)
             cur = (e[1], k)
             continue
+        if k == "cancel":
+            if cur is not None:
+                problems.append("nested %s" % raw)
+            per[e[1]].append(("end", "cancelled"))
+            cur = (e[1], "after")
+            continue
         if k in ("ret", "created", "pending", "ready", "panicked", "dropped"):
             if cur is None or cur[0] != e[1]:
                 problems.append("unexpected %s" % raw)
@@ -125,24 +163,28 @@ def split_calls(log, ncalls):
 
 
 def canon_impl_call(entries, caller_id=4):
-    """Rename span ids: the call's own span -> 'self'; helper spans -> h0..h2; caller -> 'caller'."""
+    """Rename span ids: the call's own span -> 'self'; helper spans -> h0..h2; caller -> 'caller'.
+    Entries logged while the harness drops a finished / cancelled future keep their ("afterend", ..) wrapper."""
     own = None
     out = []
-    for e in entries:
+    for e0 in entries:
+        after = e0[0] == "afterend"
+        e = e0[1:] if after else e0
         k = e[0]
         if k == "new_span":
             if own is None:
                 own = e[1]
             sid = "self" if e[1] == own else "other%d" % e[1]
-            out.append(("new_span", sid, e[2], e[3], e[4], ren_parent(e[5], own, caller_id), e[6]))
+            r = ("new_span", sid, e[2], e[3], e[4], ren_parent(e[5], own, caller_id), e[6])
         elif k in ("enter", "exit", "close"):
-            out.append((k, "self" if e[1] == own else "other%d" % e[1]))
+            r = (k, "self" if e[1] == own else "other%d" % e[1])
         elif k == "follows":
-            out.append(("follows", "self" if e[1] == own else "other%d" % e[1], "h%d" % (e[2] - 1)))
+            r = ("follows", "self" if e[1] == own else "other%d" % e[1], "h%d" % (e[2] - 1))
         elif k == "event":
-            out.append(("event", e[1], e[2], ren_parent(e[3], own, caller_id), e[4]))
+            r = ("event", e[1], e[2], ren_parent(e[3], own, caller_id), e[4])
         else:
-            out.append(e)
+            r = e
+        out.append((("afterend",) + r) if after else r)
     return out
 
 
@@ -199,6 +241,8 @@ def render_val(v, display, err_payload=False):
 
 
 def result_text(r):
+    if r == "RCancelled":
+        return "cancelled"
     if r[0] == "RPanic":
         return "panic:%d" % r[1]
 
@@ -242,6 +286,8 @@ def canon_model_call(entries, result, fn, modpath, span_on, cur):
     name_default = C.fn_name(fn, "i")
 
     def fname(n):
+        if n[0] == "FnDot":
+            return "%s.d%d" % (fn["binds"][n[1]]["name"], n[2])
         return fn["binds"][n[1]]["name"] if n[0] == "FnParam" else "f%d" % n[1]
     ctx = "ctx:caller" if cur else "ctx:none"
     for e in entries:
@@ -292,7 +338,7 @@ def canon_model_call(entries, result, fn, modpath, span_on, cur):
                         ("%s=dbg:%s" % ("error" if is_err else "return", render_val(v, display, is_err)),)))
         else:
             raise ValueError(e)
-    out.append(("end", "panicked" if result[0] == "RPanic" else "ok"))
+    out.append(("end", "cancelled" if result == "RCancelled" else "panicked" if result[0] == "RPanic" else "ok"))
     return out
 
 
@@ -341,8 +387,15 @@ def spec_fields(fn, args):
         fe = cf["expr"]
         if fe[0] == "empty":
             continue
-        name = "f%d" % cf["name"][1] if cf["name"][0] == "custom" else fn["binds"][cf["name"][1]]["name"]
-        if fe[0] == "rec":
+        name = C.field_name(fn, cf["name"])
+        if fe[0] == "short":
+            # `?p` / `%p`: the parameter's own Debug / Display
+            b = fn["binds"][fe[1]]
+            v = args[b["i"]] if b["i"] < len(args) else 0
+            disp = cf["kind"] == "display"
+            txt = {"rec": ("dbg:r%d" if disp else "dbg:R%d") % b["i"], "u32": "dbg:%d" % v, "bool": "dbg:%s" % ("true" if v else "false"),
+                   "str": ("dbg:s%d" if disp else 'dbg:"s%d"') % (v % 4)}[b["ty"]]
+        elif fe[0] == "rec":
             txt = ("dbg:r%d" if cf["kind"] == "display" else "dbg:R%d") % fe[2]
         else:
             n = fe[2] if fe[0] == "num" else (args[fe[2]] if fe[2] < len(args) else 0)
@@ -351,13 +404,13 @@ def spec_fields(fn, args):
     return tuple(out)
 
 
-def oracle_call(rep, case, ci, fn, modpath, inst, plain, res_i, res_p):
+def oracle_call(rep, case, ci, fn, modpath, inst, plain, res_i, res_p, which="a", plain_line=None):
     """inst / plain: canonical per-call logs of the twins (same case, same args, same collector)."""
     a = fn["attrs"]
     call = case["calls"][ci]
     args = call["args"]
     col = case["col"]
-    info = {"case": case["line"], "call": ci, "fn": fn["idx"], "fn_name": C.fn_name(fn, "i"), "attrs": C.attr_key(fn), "kind": fn["kind"],
+    info = {"case": case["line"], "plain_case": plain_line, "corpus": which, "call": ci, "fn": fn["idx"], "fn_name": C.fn_name(fn, "i"), "attrs": C.attr_key(fn), "kind": fn["kind"],
             "args": args, "collector": col, "inst_log": [list(map(str, e)) for e in inst][:80], "plain_log": [list(map(str, e)) for e in plain][:80],
             "result_inst": res_i, "result_plain": res_p}
     bad = []
@@ -384,6 +437,8 @@ def oracle_call(rep, case, ci, fn, modpath, inst, plain, res_i, res_p):
     # (2) exactly one well-formed span
     lvl = spec_level(a)
     on = spec_span_on(col, lvl)
+    if res_i == "cancelled" and not any(e[0] == "pending" for e in inst):
+        on = False      # the future was dropped before its first poll: the body never started, no span is due
     spans = [e for e in inst if e[0] == "new_span"]
     if on:
         if len(spans) != 1:
@@ -401,7 +456,7 @@ def oracle_call(rep, case, ci, fn, modpath, inst, plain, res_i, res_p):
                 bad.append("span fields %s, configured %s" % (s[6], want_fields))
             # custom field expressions evaluated exactly once
             fes = collections.Counter(e[1] for e in inst if e[0] == "fe")
-            want_fes = collections.Counter(cf["expr"][1] for cf in a["fields"] if cf["expr"][0] != "empty")
+            want_fes = collections.Counter(cf["expr"][1] for cf in a["fields"] if cf["expr"][0] not in ("empty", "short"))
             if fes != want_fes:
                 bad.append("custom field expressions evaluated %s, expected once each %s" % (dict(fes), dict(want_fes)))
             if a["follows"] is not None:
@@ -437,6 +492,10 @@ def oracle_call(rep, case, ci, fn, modpath, inst, plain, res_i, res_p):
             if inside:
                 bad.append("span still entered at a poll boundary / when the call returns (%s)" % (e,))
                 break
+        elif k in ("fe", "pe", "fle"):
+            if inside:
+                bad.append("attribute expression %s evaluated inside the function's span (only the body runs inside it)" % (e,))
+                break
         elif k == "event":
             if on and (not inside or e[3] != "ctx:self"):
                 bad.append("event %s emitted outside the span" % (e,))
@@ -444,7 +503,9 @@ def oracle_call(rep, case, ci, fn, modpath, inst, plain, res_i, res_p):
     # (4) ret / err events
     evs = [e for e in inst if e[0] == "event"]
     want = []
-    if not res_i.startswith("panic"):
+    if inside:
+        bad.append("the function's span is still entered after the call's last entry")
+    if not res_i.startswith("panic") and res_i != "cancelled":
         tgt = modpath if a["target"] is None else "tgt%d" % a["target"]
         is_res = C.shape_ok_err(fn["ret"]) is not None
 
@@ -516,9 +577,13 @@ def gen_cases(rng, fns, per_fn, n_multi):
             col = COLLECTORS[0] if k == 0 else rng.choice(COLLECTORS)
             cur = rng.random() < 0.5
             args = gen_args(rng, fn)
+            # some async calls are cancelled: polled a few times, then dropped by the caller (1000 + i = drop future i)
+            sched = []
+            if fn["kind"] != "sync" and rng.random() < 0.2:
+                sched = [0] * rng.choice([0, 1, 1, 2, 2, 3]) + [1000]
             for twin in "pi":
                 calls = [{"f": fn["idx"], "twin": twin, "args": args}]
-                cases.append({"id": "s%d%s" % (n, twin), "pair": n, "twin": twin, "col": col, "cur": cur, "calls": calls, "sched": []})
+                cases.append({"id": "s%d%s" % (n, twin), "pair": n, "twin": twin, "col": col, "cur": cur, "calls": calls, "sched": sched})
             n += 1
     for _ in range(n_multi):
         k = rng.randint(2, 4)
@@ -527,10 +592,47 @@ def gen_cases(rng, fns, per_fn, n_multi):
         cur = rng.random() < 0.5
         argl = [gen_args(rng, f) for f in picks]
         sched = [rng.randrange(k) for _ in range(rng.randint(0, 14))]
+        if rng.random() < 0.35:
+            for _ in range(rng.randint(1, 2)):
+                sched.insert(rng.randint(0, len(sched)), 1000 + rng.randrange(k))
         for twin in "pi":
             calls = [{"f": f["idx"], "twin": twin, "args": a} for f, a in zip(picks, argl)]
             cases.append({"id": "m%d%s" % (n, twin), "pair": n, "twin": twin, "col": col, "cur": cur, "calls": calls, "sched": sched})
         n += 1
+    for c in cases:
+        c["line"] = case_line(c["id"], c["col"], c["cur"], c["calls"], c["sched"])
+    return cases
+
+
+def regress_cases(which):
+    """The cases of corpus/C17/*.json: per function its `calls` ({args, col, cur}); per file its `interleaved` entries
+    ({fns: [names], args: [[..]], col, cur, sched}).  For the order probe: the calls of ORDER_SPECS."""
+    if which == "a":
+        specs, base, files = regress_specs(), N_QUICK, regress_files()
+    elif which == "o":
+        specs, base, files = [("order-probe", e) for e in ORDER_SPECS], 0, []
+    else:
+        return []
+    by_name = {}
+    for k, (f, e) in enumerate(specs):
+        by_name[(f, e["name"])] = base + k
+    cases = []
+    n = 0
+
+    def add(calls_of, col, cur, sched, tag):
+        nonlocal n
+        for twin in "pi":
+            calls = [{"f": fi, "twin": twin, "args": list(a)} for fi, a in calls_of]
+            cases.append({"id": "r%d%s" % (n, twin), "pair": "r%d" % n, "twin": twin, "col": None if col is None else tuple(col), "cur": bool(cur),
+                          "calls": calls, "sched": list(sched), "regress": tag})
+        n += 1
+    for k, (f, e) in enumerate(specs):
+        for c in e.get("calls", []):
+            add([(base + k, c["args"])], c.get("col", [5, 1, 1, 0, 0]), c.get("cur", False), [], "%s:%s" % (f, e["name"]))
+    for f, doc in files:
+        for m in doc.get("interleaved", []):
+            add([(by_name[(f, nm)], a) for nm, a in zip(m["fns"], m["args"])], m.get("col", [5, 1, 1, 0, 0]), m.get("cur", False), m.get("sched", []),
+                "%s:%s" % (f, "+".join(m["fns"])))
     for c in cases:
         c["line"] = case_line(c["id"], c["col"], c["cur"], c["calls"], c["sched"])
     return cases
@@ -545,15 +647,140 @@ def coq_col(col):
 
 # ------------------------------------------------------------------------------------------------
 
-def run_corpus(ctx, rep, which, binname, per_fn, n_multi, label):
+def report_build_failure(rep, which, fns, log, limit=3):
+    """The corpus no longer compiles.  A twin whose plain version compiles and whose `#[instrument]` version does not is
+    a concrete failing *program* (the quantifier of C17 is over programs): report it with rustc's message."""
+    import re
+    fname = "corpus_%s.rs" % which
+    text = C.render_corpus(fns, {"a": CORPUS_SEED, "b": CORPUS_SEED + 1, "o": CORPUS_SEED + 2}[which])
+    lines = text.split("\n")
+    owner = {}
+    cur, pending = None, []
+    for n, l in enumerate(lines, 1):
+        if l.strip().startswith("#[tracing::instrument"):
+            pending.append(n)
+            continue
+        m = re.search(r"pub (?:async )?fn ([ip]m?\d+)", l)
+        if m:
+            cur = m.group(1)
+            for k in pending:
+                owner[k] = cur
+            pending = []
+        if l.startswith("fn mk") or l.startswith("pub fn mk"):
+            cur = None
+        owner[n] = cur
+    blocks = re.split(r"\n(?=error)", log)
+    bad, other = {}, []
+    for b in blocks:
+        if not b.startswith("error"):
+            continue
+        m = re.search(r"-->\s*\S*%s:(\d+):(\d+)" % re.escape(fname), b)
+        if not m:
+            if not b.startswith("error: could not compile") and not b.startswith("error: aborting"):
+                other.append(b[:300])
+            continue
+        fn = owner.get(int(m.group(1)))
+        if fn is None:
+            other.append(b[:300])
+        else:
+            bad.setdefault(fn, b)
+    plain_broken = {n for n in bad if n.startswith("p")}
+    by_name = {}
+    for f in fns:
+        by_name[C.fn_name(f, "i")] = f
+    n = 0
+    only_known = bool(bad) and not other
+    order_rng = __import__("random").Random(0)
+    for name, msg in sorted(bad.items(), key=lambda kv: int(re.sub(r"\D", "", kv[0]))):
+        if not name.startswith("i") or ("p" + name[1:]) in plain_broken or name not in by_name:
+            only_known = False
+            continue
+        f = by_name[name]
+        a = f["attrs"]
+        # F172: exactly one `parent` / `follows_from` is written, after `target`, and attr.rs says there are two
+        if which == "o" and a.get("order") == "target_first" and any(m in msg for m in ORDER_MSG):
+            rep.violation("#[instrument(target = .., %s = ..)] on %s is rejected: %s" % (
+                "parent" if ORDER_MSG[0] in msg else "follows_from", name, msg.split("\n")[0][:160]),
+                {"fn": name, "attribute": C.attr_text(f, order_rng), "rustc": msg[:800]}, finding="F172")
+            continue
+        only_known = False
+        i0 = next((k for k, l in enumerate(lines) if re.search(r"fn %s\b" % name, l)), None)
+        src_i = "\n".join(lines[max(0, i0 - 1):i0 + C.render_fn(f, "p", order_rng).count("\n")]) if i0 is not None else ""
+        first = msg.split("\n")[0]
+        rep.violation("twin %s (%s, template %s) compiles without #[instrument] but not with it: %s" % (name, f["kind"], C.template_key(f), first[:160]),
+                      {"fn": name, "kind": f["kind"], "attrs": C.attr_key(f), "instrumented_source": src_i,
+                       "plain_source": C.render_fn(f, "p", order_rng), "rustc": msg[:1500]})
+        n += 1
+        if n >= limit:
+            break
+    rep.extra.setdefault("build_failure", {})[which] = {"instrumented_twins_rejected": sorted(k for k in bad if k.startswith("i")),
+                                                         "plain_twins_rejected": sorted(plain_broken), "other_errors": other[:3]}
+    return only_known
+
+
+def source_tables_tie(ctx, rep, attr_templates):
+    """What the corpus generator assumes about attr.rs / expand.rs, compared with what the translator reads there."""
+    t, un = attr_templates.tables(ctx.repo)
+    probs = list(un)
+    tv = t.get("types_for_value") or []
+    for ty in ("u32", "bool", "str"):
+        if ty not in tv:
+            probs.append("generator records `%s` parameters as Value, TYPES_FOR_VALUE does not list it" % ty)
+    for ty in ("R", "G0", "Pair", "PairN", "Wrap", "Rec"):
+        if ty in tv:
+            probs.append("generator records `%s` parameters with Debug, TYPES_FOR_VALUE lists it" % ty)
+    if not (t.get("ref_recurses") and t.get("path_last_segment")):
+        probs.append("RecordType::parse_from_ty: shape not recognised (path's last segment in the table => Value, reference => its element, else Debug)")
+    want_rules = {"Ident": "keep", "Reference": "recurse-keep", "Struct": "recurse-debug", "Tuple": "recurse-debug", "TupleStruct": "recurse-debug", "_": "none"}
+    if t.get("pat_rules") != want_rules:
+        probs.append("param_names arms %s, generator assumes %s" % (t.get("pat_rules"), want_rules))
+    if not t.get("receiver_debug"):
+        probs.append("receiver is not recorded as (self, Debug)")
+    if t.get("level_strs") != {C.LEVEL_NAMES[l].lower(): l for l in C.LEVEL_NAMES}:
+        probs.append("level strings %s" % t.get("level_strs"))
+    if t.get("level_ints") != {6 - l: l for l in C.LEVEL_NAMES}:
+        probs.append("integer levels %s" % t.get("level_ints"))
+    if t.get("level_tokens") != {C.LEVEL_NAMES[l].capitalize(): C.LEVEL_NAMES[l] for l in C.LEVEL_NAMES}:
+        probs.append("Level -> tokens %s" % t.get("level_tokens"))
+    if not t.get("level_path"):
+        probs.append("`level = <path>` form not recognised")
+    if t.get("keywords") != sorted(C.KEYWORDS):
+        probs.append("attribute keywords of attr.rs %s, the generator / model cover %s" % (t.get("keywords"), sorted(C.KEYWORDS)))
+    rep.tie("translator:attr tables (TYPES_FOR_VALUE, param_names arms, level spellings, keywords)", not probs, "; ".join(probs[:4]), probs[:1] or None)
+    rep.extra["attr_tables"] = {"types_for_value": len(tv), "pat_rules": t.get("pat_rules"), "keywords": t.get("keywords"), "dup_guards": t.get("dup_guards")}
+    return t
+
+
+def parse_case_line(line):
+    """inverse of case_line"""
+    t = line.split()
+    cid = t[1]
+    col = None if t[3] == "none" else tuple(int(x) for x in t[3].split(","))
+    calls = []
+    for c in t[7].split(";"):
+        if c:
+            f, twin, a = c.split(":")
+            calls.append({"f": int(f), "twin": twin, "args": [int(x) for x in a.split(".") if x]})
+    sched = [int(x) for x in t[9].split(".") if x and x != "-"]
+    twin = calls[0]["twin"]
+    return {"id": cid, "pair": "replay", "twin": twin, "col": col, "cur": t[5] == "1", "calls": calls, "sched": sched, "line": line}
+
+
+BINS = {"a": "h_attr", "b": "h_attr_big", "o": "h_attr_order"}
+
+
+def run_corpus(ctx, rep, which, binname, per_fn, n_multi, label, only_cases=None):
     fns = corpus(which)
     by_idx = {f["idx"]: f for f in fns}
     modpath = "%s::corpus" % binname
     ok, paths, log = cargo_build(ctx, "attr", [binname])
     if not ok:
-        rep.tie("build:%s" % binname, False, vlib.last_error(log))
+        only_known = report_build_failure(rep, which, fns, log)
+        if not (which == "o" and only_known):
+            rep.tie("build:%s" % binname, False, vlib.last_error(log))
         return
-    cases = gen_cases(ctx.rng, fns, per_fn, n_multi)
+    cases = only_cases if only_cases is not None else regress_cases(which) + gen_cases(ctx.rng, fns, per_fn, n_multi)
+    rep.count("cases:corpus/C17", sum(1 for c in cases if c.get("regress")))
     # the `none` collector needs a process in which no collector was ever installed
     batches = [[c for c in cases if c["col"] is not None], [c for c in cases if c["col"] is None]]
     obs = {}
@@ -571,23 +798,40 @@ def run_corpus(ctx, rep, which, binname, per_fn, n_multi, label):
     if len(obs) != len(cases):
         rep.tie("run:%s" % binname, False, "%d observations for %d cases" % (len(obs), len(cases)))
         return
-    # ---- model evaluation: one run per distinct (fn, twin, args, collector)
+    # ---- split the observations into per-call logs; a cancelled call names the await site it was suspended at
+    for c in cases:
+        o = obs[c["id"]]
+        per, problems = split_calls(o["log"], len(c["calls"]))
+        c["problems"] = problems
+        c["per"] = [canon_impl_call(p) for p in per]
+        c["results"] = o["results"]
+        c["sites"] = []
+        for ci in range(len(c["calls"])):
+            site = None
+            if o["results"][ci] == "cancelled":
+                for e in c["per"][ci]:
+                    if e[0] == "end":
+                        break
+                    if e[0] == "yield":
+                        site = e[1]
+            c["sites"].append(site)
+    # ---- model evaluation: one run per distinct (fn, twin, args, collector, cancellation site)
     keys = {}
     for c in cases:
-        for call in c["calls"]:
-            keys.setdefault((call["f"], call["twin"], tuple(call["args"]), c["col"]), None)
-    klist = sorted(keys, key=lambda k: (k[0], k[1], k[2], str(k[3])))
+        for ci, call in enumerate(c["calls"]):
+            keys.setdefault((call["f"], call["twin"], tuple(call["args"]), c["col"], c["sites"][ci]), None)
+    klist = sorted(keys, key=lambda k: (k[0], k[1], k[2], str(k[3]), -1 if k[4] is None else k[4]))
     model = None
     try:
         used = sorted({k[0] for k in klist})
-        prelude = "\n".join("Definition fn%d := %s.\nDefinition at%d := %s." % (i, C.c_func(by_idx[i]), i, C.c_attrs(by_idx[i]["attrs"])) for i in used)
+        prelude = "\n".join("Definition fn%d := %s.\nDefinition at%d := %s." % (i, C.c_func(by_idx[i]), i, C.c_attrs(by_idx[i]["attrs"], by_idx[i]["binds"])) for i in used)
         terms = []
         chunk = 120
         for i in range(0, len(klist), chunk):
             items = []
-            for (f, twin, args, col) in klist[i:i + chunk]:
+            for (f, twin, args, col, site) in klist[i:i + chunk]:
                 top = "TPlain" if twin == "p" else "(expand at%d fn%d)" % (f, f)
-                items.append("run %s %s fn%d %s" % (coq_col(col), C.c_args(args), f, top))
+                items.append("run %s %s fn%d %s" % (coq_col(col), C.c_args(args, site), f, top))
             terms.append(("r%d" % i, "[%s]" % "; ".join(items)))
         res = coq_eval(ctx, "From TV Require Import Attr.Model.\nLocal Open Scope N_scope.", terms, prelude=prelude, tag="cases_" + which)
         model = {}
@@ -601,12 +845,9 @@ def run_corpus(ctx, rep, which, binname, per_fn, n_multi, label):
     pairs = {}
     for c in cases:
         o = obs[c["id"]]
-        per, problems = split_calls(o["log"], len(c["calls"]))
+        per, problems = c["per"], c["problems"]
         if problems:
             rep.violation("harness log of case %s is not well-formed: %s" % (c["id"], problems[:2]), {"case": c["line"], "problems": problems[:5]})
-        per = [canon_impl_call(p) for p in per]
-        c["per"] = per
-        c["results"] = o["results"]
         pairs.setdefault(c["pair"], {})[c["twin"]] = c
         rep.traces_validated += 1
         for ci, call in enumerate(c["calls"]):
@@ -616,24 +857,52 @@ def run_corpus(ctx, rep, which, binname, per_fn, n_multi, label):
             rep.count("collector:%s" % ("none" if c["col"] is None else "hint%d%s%s%s%s" % (
                 c["col"][0], "" if c["col"][1] else "-nospan", "" if c["col"][2] else "-noevent", "-sometimes" if c["col"][3] else "", "-nohint" if c["col"][4] else "")))
             if model is not None:
-                mlog, mres = model[(call["f"], call["twin"], tuple(call["args"]), c["col"])]
+                mlog, mres = model[(call["f"], call["twin"], tuple(call["args"]), c["col"], c["sites"][ci])]
                 lvl = spec_level(fn["attrs"])
                 hint_ok = c["col"] is not None and lvl <= c["col"][0] and bool(c["col"][1])
                 caller_on = c["cur"] and c["col"] is not None and c["col"][0] >= 1 and bool(c["col"][1])   # the caller's span is an ERROR-level span
-                want = sort_drop_runs(canon_model_call(mlog, mres, fn, modpath, hint_ok and call["twin"] == "i", caller_on))
-                got = sort_drop_runs([e[1:] if e[0] == "afterend" else e for e in per[ci]])
+                wantl = canon_model_call(mlog, mres, fn, modpath, hint_ok and call["twin"] == "i", caller_on)
+                gotl = [e[1:] if e[0] == "afterend" else e for e in per[ci]]
+                cancelled = o["results"][ci] == "cancelled"
+                if cancelled and c["sites"][ci] is not None:
+                    # dropped while suspended at an await site: the model ran with that site marked (Attr.Model.cancel_at) and
+                    # describes the whole call, the teardown included
+                    rep.count("calls:cancelled")
+                    cancelled = False
+                elif cancelled:
+                    # dropped before its first poll: the model describes the call up to `created`; what the drop does is judged
+                    # by the oracle only (twin equality of the drops)
+                    rep.count("calls:dropped-unpolled")
+                    cut = next(j for j, e in enumerate(gotl) if e == ("end", "cancelled"))
+                    gotl = gotl[:cut]
+                    nb = sum(1 for e in gotl if e in (("pending",), ("created",)))
+                    seen, mcut = 0, 0
+                    for j, e in enumerate(wantl):
+                        if e in (("pending",), ("created",)):
+                            seen += 1
+                            if seen == nb:
+                                mcut = j + 1
+                                break
+                    wantl = wantl[:mcut]
+                want = sort_drop_runs(wantl)
+                got = sort_drop_runs(gotl)
                 # the harness logs the end marker before the drop of the finished future; move it last
                 got = [e for e in got if e[0] != "end"] + [e for e in got if e[0] == "end"]
-                if got != want or result_text(mres) != o["results"][ci]:
+                if cancelled:
+                    mres_txt = "cancelled"
+                else:
+                    mres_txt = result_text(mres)
+                if got != want or mres_txt != o["results"][ci]:
                     k = next((j for j, (x, y) in enumerate(zip(got, want)) if x != y), min(len(got), len(want)))
                     disagree.append({"case": c["line"], "call": ci, "fn": C.fn_name(fn, call["twin"]), "kind": fn["kind"], "at": k,
                                      "impl": [str(e) for e in got[max(0, k - 3):k + 4]], "model": [str(e) for e in want[max(0, k - 3):k + 4]],
-                                     "impl_result": o["results"][ci], "model_result": result_text(mres)})
-    for pid, tw in sorted(pairs.items()):
+                                     "impl_result": o["results"][ci], "model_result": mres_txt})
+    for pid, tw in sorted(pairs.items(), key=lambda kv: (0, kv[0]) if isinstance(kv[0], str) else (1, "%09d" % kv[0])):
         ci_case, cp_case = tw["i"], tw["p"]
         for ci, call in enumerate(ci_case["calls"]):
             fn = by_idx[call["f"]]
-            good = oracle_call(rep, ci_case, ci, fn, modpath, ci_case["per"][ci], cp_case["per"][ci], ci_case["results"][ci], cp_case["results"][ci])
+            good = oracle_call(rep, ci_case, ci, fn, modpath, ci_case["per"][ci], cp_case["per"][ci], ci_case["results"][ci], cp_case["results"][ci],
+                               which, cp_case["line"])
             rep.nontrivial.add((C.template_key(fn), C.pattern_key(fn), C.attr_key(fn)))
             rep.count("template:" + C.template_key(fn))
             res = ci_case["results"][ci]
@@ -659,6 +928,20 @@ def run_corpus(ctx, rep, which, binname, per_fn, n_multi, label):
 
 
 def run(ctx):
+    rep = new_report(ctx)
+    write_corpora()
+    prepare(ctx, rep)
+    # ---- legs B2 + C
+    run_corpus(ctx, rep, "o", "h_attr_order", 2, 0, "argument-order probe")
+    if ctx.thorough():
+        run_corpus(ctx, rep, "a", "h_attr", 10, 1500, "quick-corpus")
+        run_corpus(ctx, rep, "b", "h_attr_big", 6, 4000, "big-corpus")
+    else:
+        run_corpus(ctx, rep, "a", "h_attr", 4, 400, "quick-corpus")
+    return rep
+
+
+def new_report(ctx):
     rep = Report(ctx)
     rep.rule = ("each call of a corpus function = one evaluation; non-trivial = every call (all twins have parameters and effects); "
                 "distinct = distinct (gen_block template, parameter-pattern set, attribute-argument set) triples of the functions exercised")
@@ -674,27 +957,42 @@ def run(ctx):
         "expressions written inside the attribute (fields / parent / follows_from) are tracing-side effects: erase_tracing removes them; they are "
         "checked separately (each custom field expression exactly once when enabled, never when disabled)",
         "the order inside a run of consecutive scope-exit drops is not compared (rustc's closure-capture / field order); counts and positions of the runs are",
-        "futures are polled to completion (no cancellation); tracing's `log` feature is off",
+        "futures are polled to completion or dropped by the caller between two polls (cancellation at an await site is an input of the model: "
+        "Attr.Model.cancel_at; a future dropped before its first poll is compared up to `created` and judged by the oracle); tracing's `log` feature is off",
         "attribute arguments are those this tree's attr.rs parses (name, level, target, parent, follows_from, skip, fields, ret, err); "
         "`skip_all` does not exist on this release line, so `skipped arguments absent` is about `skip(..)`"]
+    return rep
+
+
+def replay(ctx, payload):
+    """./check C17 --replay FILE: the recorded pair of twin cases only (both legs), or the whole check for other replays."""
+    case = payload.get("case") or {}
+    if not (isinstance(case, dict) and case.get("case") and case.get("plain_case")):
+        return run(ctx)
+    rep = new_report(ctx)
     write_corpora()
+    prepare(ctx, rep)
+    which = case.get("corpus", "a")
+    cases = [parse_case_line(case["plain_case"]), parse_case_line(case["case"])]
+    run_corpus(ctx, rep, which, BINS[which], 0, 0, "replay", only_cases=cases)
+    return rep
+
+
+def prepare(ctx, rep):
     # ---- leg B1: template translator
+    sys.path.insert(0, os.path.join(vlib.VERIF, "translators"))
+    import attr_templates
+    tables = None
     try:
-        sys.path.insert(0, os.path.join(vlib.VERIF, "translators"))
-        import attr_templates
         text, unrec = attr_templates.main(ctx.repo, None)
         gen_if_changed(os.path.join(vlib.COQ, "gen", "Gen_attr.v"), text)
-        rep.tie("translator:Gen_attr", not unrec, "; ".join(unrec[:4]), unrec[:1] or None)
-    except ImportError:
-        pass
+        rep.tie("translator:Gen_attr (gen_block templates, prologue, wrapper, events)", not unrec, "; ".join(unrec[:4]), unrec[:1] or None)
+        tables = source_tables_tie(ctx, rep, attr_templates)
+    except Exception as ex:   # unreadable source: fail closed
+        rep.tie("translator:Gen_attr (gen_block templates, prologue, wrapper, events)", False, "translator raised %r" % (ex,))
     # ---- leg A
     rep.proof = coq_prove(ctx, "C17", ["theories/Properties/C17.vo"])
-    # ---- legs B2 + C
-    if ctx.thorough():
-        run_corpus(ctx, rep, "a", "h_attr", 10, 600, "quick-corpus")
-        run_corpus(ctx, rep, "b", "h_attr_big", 6, 1200, "big-corpus")
-    else:
-        run_corpus(ctx, rep, "a", "h_attr", 4, 250, "quick-corpus")
     rep.samples = [{"twin": "sync + err, Fn closure: ... event error; exit; close; then the closure temporary's captures, then the other parameters"},
-                   {"twin": "async: new_span at the first poll; enter/exit around every poll; enter; exit; close when the finished Instrumented is dropped"}]
+                   {"twin": "async: new_span at the first poll; enter/exit around every poll; enter; exit; close when the finished Instrumented is dropped"},
+                   {"twin": "async, cancelled at an await: .. exit; pending; enter; drops of what the instrumented future holds; exit; close; drops of the outer frame"}]
     return rep
